@@ -21,15 +21,16 @@ type blockSpec struct {
 }
 
 type c04Case struct {
-	Test   string      `json:"test"` // lincomp | rank | maurer
-	M      int         `json:"m,omitempty"`
-	Blocks []blockSpec `json:"blocks,omitempty"`
-	Tail   int         `json:"tail,omitempty"` // trailing bits that do not fill a block / matrix
-	Seed   uint64      `json:"seed,omitempty"`
-	Seq    *gen.Seq    `json:"seq,omitempty"`    // maurer: whole sequence recipe
-	Alpha  []int       `json:"alpha,omitempty"`  // maurer: 7-bit patterns allowed in the initialisation segment
-	Plant  []int       `json:"plant,omitempty"`  // maurer: pattern Plant[0] is removed everywhere and then planted at the 1-based block numbers Plant[1:] (chosen distances)
-	Runner bool        `json:"runner,omitempty"` // go through the registry runner (byte input) as well
+	Test     string      `json:"test"` // lincomp | rank | maurer
+	M        int         `json:"m,omitempty"`
+	Blocks   []blockSpec `json:"blocks,omitempty"`
+	Tail     int         `json:"tail,omitempty"` // trailing bits that do not fill a block / matrix
+	Seed     uint64      `json:"seed,omitempty"`
+	Seq      *gen.Seq    `json:"seq,omitempty"`          // maurer: whole sequence recipe
+	Alpha    []int       `json:"alpha,omitempty"`        // maurer: 7-bit patterns allowed in the initialisation segment
+	Plant    []int       `json:"plant,omitempty"`        // maurer: pattern Plant[0] is removed everywhere and then planted at the 1-based block numbers Plant[1:] (chosen distances)
+	Runner   bool        `json:"runner,omitempty"`       // go through the registry runner (byte input) as well
+	PlantWin bool        `json:"plant_window,omitempty"` // remove the planted pattern only between the first and the last planted block (the rest of the sample stays ordinary, P stays moderate)
 }
 
 func lfsrBlock(m, L int, r *gen.Rng) []bool {
@@ -166,7 +167,7 @@ func (c c04Case) bits() []bool {
 						v |= 1
 					}
 				}
-				if v == p {
+				if v == p && (!c.PlantWin || (blk > c.Plant[1] && blk < c.Plant[len(c.Plant)-1])) {
 					set(blk, p^1)
 				}
 			}
@@ -425,6 +426,7 @@ func genC04(t *rapid.T) c04Case {
 				}
 				c.Plant = append(c.Plant, pos)
 			}
+			c.PlantWin = rapid.Bool().Draw(t, "plant_window")
 		}
 		if rapid.IntRange(0, 2).Draw(t, "restrict") == 0 {
 			k := rapid.IntRange(1, 127).Draw(t, "alphabet")
@@ -482,8 +484,11 @@ func TestC04Exhaustive(t *testing.T) {
 			if i%2 == 1 {
 				c.Plant = []int{17 * (i + 1), 1 + i, 1 + i + d, 1 + i + 2*d} // first occurrence inside the initialisation segment
 			}
-			if _, err := judge("C04", c, checkC04, false); err != nil {
-				t.Fatalf("C04: %v", err)
+			for _, win := range []bool{false, true} { // pattern absent everywhere else (P tiny) / only inside the window (P moderate)
+				c.PlantWin = win
+				if _, err := judge("C04", c, checkC04, false); err != nil {
+					t.Fatalf("C04: %v", err)
+				}
 			}
 		}
 	}
